@@ -20,7 +20,7 @@ BOXES = ("mixed", "mixed", "boxed", "narrow", "narrow", "lower", "upper", "boxed
 
 def floors(tier):
     return {"runs": 500, "points_checked": 5000, "evaluations_with_component_on_bound": 1500, "fd_runs": 150, "runs_with_bounds_object_edited_in_place": 60, "runs_with_nested_run": 60, "nested_runs": 100,
-            "runs_with_low_precision_start": 80, "restart_legs": 150, "runs_with_user_functions_working_in_place_on_their_argument": 80, "__nontrivial__": 200}
+            "runs_with_low_precision_start": 80, "restart_legs": 150, "runs_on_boxes_of_magnitude_1e20_and_more": 50, "runs_with_user_functions_working_in_place_on_their_argument": 80, "__nontrivial__": 200}
 
 
 def cases(tier, seed):
@@ -51,11 +51,43 @@ def cases(tier, seed):
             if cfg["jac"] in ("callable", "cs"):
                 cfg["jac"] = gen.pick(rng, [None, "2-point", "3-point"])
         yield spec
+    for i in range(150 if tier == "quick" else 4000):
+        cfg = e2e.rand_cfg(rng)
+        cfg["jac"] = gen.pick(rng, ["callable", "callable", None, "2-point"])
+        cfg["cb"] = "never"
+        yield {"problem": {"n": int(rng.integers(1, 4)), "seed": int(rng.integers(0, 2**31 - 1))}, "cfg": cfg, "huge": True, "edit_bounds": False}
+
+
+def make_huge_box_problem(spec):
+    """Nearly linear objective pushing the variables onto finite bounds of magnitude 1e20..1e22 from a start close to them (in relative
+    terms): a finite bound is a bound whatever its size."""
+    rng = np.random.default_rng(spec["seed"])
+    n = spec["n"]
+    U = rng.choice([1e20, 3e20, 1e21, 1e22], n)
+    sgn = rng.choice([-1.0, 1.0], n)
+    r = np.exp(rng.uniform(np.log(1e-6), np.log(0.3), n))
+    lb = np.where(sgn > 0, 0.0, -U)
+    ub = np.where(sgn > 0, U, 0.0)
+    x0 = sgn * U * (1.0 - r)
+    c = -sgn * U * r * np.exp(rng.uniform(0.5, 3.0, n))  # one unit step along -c goes beyond the bound
+    q = 1e-3 * np.abs(c) / U
+
+    def f(x):
+        return float(c @ x + 0.5 * np.sum(q * x * x))
+
+    def g(x):
+        return c + q * x
+
+    return gen.Problem(dict(family="huge_box", n=n, seed=spec["seed"], box="huge", start="near_bound"), n, f, g, lb, ub, x0, dict(convex=True))
 
 
 def run(spec):
     out = Outcome()
-    P = gen.make_problem(spec["problem"])
+    if spec.get("huge"):
+        P = make_huge_box_problem(spec["problem"])
+        out.count("runs_on_boxes_of_magnitude_1e20_and_more")
+    else:
+        P = gen.make_problem(spec["problem"])
     cfg = dict(spec["cfg"])
     if cfg["jac"] == "cs" and not e2e.cs_capable(P):
         cfg["jac"] = "3-point"
